@@ -482,6 +482,7 @@ def build(case):
             raise ValueError(kind)
         return cond
 
+    B.mk_cond = mk_cond
     B.train = [mk_cond(i, c, "t") for i, c in enumerate(case["train"])]
     B.val = [mk_cond(i, c, "v") for i, c in enumerate(case["val"])]
     B.opt_class, B.opt_args, B.lr, B.sched = opt_values(tp, torch, case["opt"])
@@ -1240,6 +1241,23 @@ def gen_history(rng, channel):
         if mode == "reuse":
             st["change_class"] = rng.random() < 0.3
             st["change_sched"] = rng.random() < 0.5
+        # public attributes changed AFTER the Solver object exists (before its first fit) or between two fits
+        st["same_solver"] = bool(si) and not st["rebuild"] and rng.random() < 0.5     # the Solver OBJECT of the previous fit again
+        edits = []
+        if rng.random() < 0.6:
+            for _ in range(rng.choice([1, 1, 2])):
+                edits.append(dict(kind="weight", idx=rng.randrange(8), value=rng.choice(["1/4", "1/2", "5/4", "2", "3", "0", "-1/2"])))
+        if rng.random() < 0.3:
+            nc = gen_cond(rng, case, "t", allow_probe=False)
+            if nc["kind"] in ("pinn", "mean", "ritz", "single", "data", "periodic", "integro", "hpcm", "param", "hpm_sampler", "hpm_data"):
+                nc["weight"] = rng.choice(["1/2", "3/2", "2"])
+                one_d = [i for i, m in enumerate(case["models"]) if m["kind"] in ("poly", "seq", "fcn")]
+                for key in ("model", "model2"):
+                    if nc.get(key) is not None and nc[key] not in one_d:
+                        nc[key] = rng.choice(one_d) if one_d else None
+                if one_d or nc["kind"] == "param":
+                    edits.append(dict(kind="append", cond=nc))
+        st["edits"] = edits
         stages.append(st)
     case["stages"] = stages
     case["shared_args"] = shared
@@ -1289,12 +1307,30 @@ def run_history(case):
     sets_impl = history_settings(case, tp, torch)
     sets_ref = history_settings(case, tp, torch)
     B = R = None
+    cur = None          # condition specs (with the weights in force) of the objects currently alive — harness' own record
     for si, st in enumerate(case["stages"]):
-        sc = dict(case, N=st["N"], sanity=st["sanity"], val_every=0, opt=st["opt"])
         if B is None or st["rebuild"]:
-            B, R = build(sc), build(sc)
+            cur = [dict(c) for c in case["train"]]
+            sc0 = dict(case, N=st["N"], sanity=st["sanity"], val_every=0, opt=st["opt"])
+            B, R = build(sc0), build(sc0)
         setting, cls, args, lr, sched = next(sets_impl)
-        B.solver = tp.solver.Solver(B.train, B.val, optimizer_setting=setting)    # condition objects shared across solvers
+        if st.get("same_solver") and si and not st["rebuild"]:
+            B.solver.optimizer_setting = setting                                  # the Solver OBJECT of the previous fit again
+        else:
+            B.solver = tp.solver.Solver(B.train, B.val, optimizer_setting=setting)    # condition objects shared across solvers
+        # edits of public attributes after the Solver exists: weights re-assigned, a condition appended
+        for e in st.get("edits", []):
+            if e["kind"] == "weight":
+                i = e["idx"] % len(cur)
+                cur[i]["weight"] = e["value"]
+                B.train[i].weight = float(Fraction(e["value"]))
+            else:
+                spec = dict(e["cond"])
+                cur.append(spec)
+                cb = B.mk_cond(len(cur) - 1, spec, "t"); B.train.append(cb)
+                B.solver.train_conditions.append(cb)
+                R.train.append(R.mk_cond(len(cur) - 1, spec, "t"))
+        sc = dict(case, N=st["N"], sanity=st["sanity"], val_every=0, opt=st["opt"], train=[dict(c) for c in cur])
         _, rec = run_impl(sc, B=B)
         _, rcls, rargs, rlr, rsched = next(sets_ref)
         R.opt_class, R.opt_args, R.lr, R.sched = rcls, rargs, rlr, rsched
@@ -1310,7 +1346,9 @@ def judge_history(rep, case, res):
     for si, (sc, rec, ref) in enumerate(res["stages"]):
         st = case["stages"][si]
         what = (f"fit number {si + 1} of {len(case['stages'])} in one process (setting: {st['mode']}, {st['opt']['kind']}, lr={st['opt']['lr']}, "
-                f"{'fresh objects' if st['rebuild'] or si == 0 else 'same condition/model objects as before'}): ")
+                f"{'fresh objects' if st['rebuild'] or si == 0 else 'same condition/model objects as before'}"
+                f"{', same Solver object' if st.get('same_solver') and si and not st['rebuild'] else ''}"
+                f"{'; after the Solver was built: ' + '; '.join(('weight of condition %d := %s' % (e['idx'] % len(sc['train']), e['value'])) if e['kind'] == 'weight' else 'condition appended to solver.train_conditions (%s, weight %s)' % (e['cond']['kind'], e['cond']['weight']) for e in st.get('edits', [])) if st.get('edits') else ''}): ")
         if "error" in ref:
             # the plain loop itself cannot be run on these re-used objects (stale DeepONet branch cache): no reference
             rep.count("history:reference-loop-raises(" + ("solver too" if "error" in rec else "solver trains") + ")")
@@ -1366,11 +1404,11 @@ def gen_cases(ctx):
         cases.append(gen_long_case(rng, 1100, ctx.scale(1500, 3300)))
     for _ in range(ctx.scale(30, 300)):
         cases.append(gen_history(rng, rng.choice(["rat", "torch"])))
-    for _ in range(ctx.scale(100, 1000)):
+    for _ in range(ctx.scale(85, 1000)):
         cases.append(tame(gen_case_rat(rng)))
-    for _ in range(ctx.scale(25, 250)):
+    for _ in range(ctx.scale(20, 250)):
         cases.append(tame(probe_case(rng)))
-    for _ in range(ctx.scale(50, 500)):
+    for _ in range(ctx.scale(42, 500)):
         cases.append(gen_case_torch(rng))
     return cases
 
@@ -1395,6 +1433,11 @@ def run(ctx, rep, cases=None):
             rep.count("history:setting=" + st["mode"]); rep.count("history:opt=" + st["opt"]["kind"])
             if si and not st["rebuild"]:
                 rep.count("history:shared-objects")
+                if st.get("same_solver"):
+                    rep.count("history:same-Solver-object")
+            for e in st.get("edits", []):
+                rep.count("history:edit=" + ("weight-reassigned" if e["kind"] == "weight" else "condition-appended")
+                          + ("(before first fit)" if si == 0 else "(between fits)"))
         judge_history(rep, case, res)
     for case in [c for c in cases if "stages" not in c]:
         B, rec = run_impl(case)
